@@ -512,6 +512,13 @@ func (d *decoderImpl) tryCustom(v reflect.Value) (consume bool, err error) {
 			if err := value.RLPDecodeSelf(d); err == nil {
 				return true, d.flush()
 			} else {
+				if err == ErrNilValue {
+					// callers may take ErrNilValue as a nil value and go on:
+					// do not leave a half read list reader behind
+					if err2 := d.flush(); err2 != nil {
+						return true, err2
+					}
+				}
 				return true, err
 			}
 		case ReadSelfer:
@@ -682,6 +689,13 @@ func (d *decoderImpl) decodeValue(v reflect.Value) error {
 			return err
 		}
 		if err := decodeRecursiveFields(d2, elem); err != nil {
+			if err == ErrNilValue {
+				// callers may take ErrNilValue as a nil value and go on:
+				// do not leave a half read list reader behind
+				if err2 := d.flush(); err2 != nil {
+					return err2
+				}
+			}
 			return err
 		}
 		return d.flush()
